@@ -57,50 +57,54 @@ TRUSTED = [
     "(lean/RpycModel/Spec/Published.lean incl. the per-handler argument layouts, reply shapes and the dumped-exception "
     "tuple; independently re-typed in harness/refcodec.py); only the brine docstring's printed example is an external "
     "test vector",
-    "ADMITTED: Spec/Code.lean (what Channel.send/recv, _send, _box, _async_request, _dispatch_request, _dispatch, _unbox "
-    "do to bytes) is hand-written over the regenerated constants; theorems box_layout / msg_layout_* / "
-    "dispatch_reads_published / unbox_reads_published are therefore definitional given gen_eq_published. It is tied to "
-    "the code (a) by the generated facts of Gen/Recorded.lean (what the live _box, the live call sites, the live "
-    "_dispatch_request and the live _dispatch did on fixed probes when the constants were regenerated: theorems "
-    "recorded_*), Gen/Consts.lean handlerArity (inspect.signature) and callSites (AST), and (b) by this correspondence",
+    "ADMITTED: Spec/Code.lean (what Channel.send/recv, _send, _box, _unbox, _async_request, _dispatch_request, _dispatch "
+    "do to bytes) is hand-written over the regenerated constants. Ten of the theorems are therefore DEFINITIONAL given "
+    "gen_eq_published and carry no tie to the code of their own: box_layout, msg_layout_request, msg_layout_reply, "
+    "msg_layout_exception, msg_layout_wire, request_wire, reply_wire, exception_wire, dispatch_reads_published, "
+    "unbox_reads_published; gen_eq_published repackages the per-group lemmas; struct_formats_published is a generator "
+    "GUARD (literal true or Inexpressible). The tie of Code.lean to the code is (a) the generated facts: Gen/Recorded.lean "
+    "(what the live _box, _unbox, the live call sites incl. async_/timed, _dispatch_request under the quiet and the "
+    "default configuration, and _dispatch did on fixed probes at regeneration time: theorems recorded_*), "
+    "Gen/Consts.lean handlerArity (inspect.signature: counts, not parameter order) and callSites (AST, with a "
+    "coverage lower bound), and (b) this correspondence. Below (kind, seq, args) the Lean statements are about those "
+    "finitely many probes, not quantified",
     "modelled, not verified: zlib is a parameter of the frame theorems (only `inflate (deflate b) = b` is assumed of "
-    "the receiver's zlib); struct '!d' bit transparency (struct_formats_published is one generated Boolean); "
-    "str(int) = canonical decimal; CPython's strict UTF-8 = the model's codec",
+    "the receiver's zlib); struct '!d' bit transparency; str(int) = canonical decimal; CPython's strict UTF-8 = the "
+    "model's codec",
     "the semantics of the handlers beyond their argument layout (what getattr/call/... DO) is C01/C02/C06/C07's subject; "
     "here: number, arity, argument kinds, reply shape where fixed, and the conversation outcomes with the reference peer",
 ]
 ASSUMPTIONS = [
+    "KNOWN FINDING C19:lone-surrogate-text-uses-surrogatepass: dumpable text with a lone surrogate is transmitted in a "
+    "form the published format does not define (theorem C19_emits_only_published_counterexample; the full-strength "
+    "statement C19_emits_only_published is FALSE of this tree; enc_eq_specEnc / C19_emits_only_published_partial hold on "
+    "ScalarText values). Such values are judged by the correspondence and counted under that signature",
+    "nesting: the theorems quantify over all nesting depths of the MODEL; the code recurses per level (brine dump/load: a "
+    "tuple nested ~500 deep raises RecursionError under the default recursion limit, so such a conforming packet is "
+    "refused and such a value not encoded). Values nested deeper than 200 are not judged by the correspondence (counted "
+    "as value:not-judged:nested-deeper-than-200 / value:skipped-recursion)",
     "integers beyond the interpreter's int<->str digit limit are outside the statement (a published peer may send "
     "them; this interpreter's int()/str() refuse them: ValueError) — theorem hypotheses `Renderable` / `Parsable`",
-    "text: the published rule is strict UTF-8; the tree under check additionally encodes/accepts lone surrogates in the "
-    "three-byte form (surrogatepass). That is a superset: no published encoding changes (theorem enc_eq_specEnc on "
-    "ScalarText values, enc_eq_specEnc_any_text for the rest); such values are compared against `spec encx`",
     "lengths >= 2**32 are refused by both sides with the packer's error (proved, not generated)",
     "the recorded probes (Gen/Recorded.lean) are finitely many fixed inputs: they tie the model's shape to the code, the "
     "quantified statements are about the model",
 ]
 EXPLANATION = (
-    "Theorems (Rpyc.Props.C19, unbounded sizes and nesting where quantified): (1) gen_eq_published and one lemma per "
-    "constant group (tags_published, load_registry_published, imm_window_published, struct_formats_published, "
-    "msg_kinds_published, labels_published, handlers_published, handler_routing_published, exc_published, "
-    "frame_consts_published, consts_complete) plus one lemma per single constant in Spec/Lemmas.lean, so a moved "
-    "constant is named; tag_table_unambiguous. (2) enc_eq_specEnc: dump v = specEnc v for every value (mutual "
-    "structural induction), specEnc searching the published form table for the shortest fitting form; "
-    "enc_eq_specEnc_any_text covers text with lone surrogates (superset of the published strict rule, no published "
-    "encoding changes; the decoder accepting those forms is likewise a superset); doc_sample_published. (3) "
-    "enc_shortest + enc_in_grammar + pick_is_shortest_fitting. (4) dec_complete(_stream): every sentence of the grammar "
-    "Denotes, in any legal length class, is loaded as exactly the value it denotes. (5) frame_layout, frame_eq_spec, "
-    "frame_eq_wire_model, recv_accepts_conforming_frame / recv_follows_flag. (6) box_layout, msg_layout_request/"
-    "reply/exception, *_wire, dispatch_reads_published, unbox_reads_published — definitional over the hand-written "
-    "Spec/Code.lean given (1). (6b) below (kind, seq, args): handler_arity_published (inspect.signature of every "
-    "_handle_*), call_sites_fit_published (every HANDLE_* call site of the package, AST), operations_use_published_"
-    "handlers, recorded_requests_conform (every request the live call sites emitted has the published per-handler "
-    "argument layout: names as text, args as a tuple, kwargs as a tuple of (name, value) pairs, id_pack triples, "
-    "counts), recorded_box_matches_model, recorded_requests_match_model, recorded_responses_published (replies, the "
-    "dumped-exception tuple ((module, name), args, attrs, tb) for built-in and custom exceptions, EXC_STOP_ITERATION), "
-    "recorded_dispatch_matches_model (bool/float/complex message kinds as Python == treats them), handler_args_total. "
-    "Admitted (see trusted_base): the transcription of the published format itself; Spec/Code.lean is hand-written "
-    "and tied by finitely many recorded probes plus the correspondence; handler semantics beyond layout.")
+    "Theorems (Rpyc.Props.C19). Quantified over all values / byte strings / payloads of the model: enc_eq_specEnc, "
+    "enc_eq_specEnc_any_text, enc_shortest, enc_in_grammar, dec_complete, dec_complete_stream, one_message_per_packet, "
+    "frame_layout, frame_eq_wire_model, recv_accepts_conforming_frame, C19_emits_only_published_partial; "
+    "C19_emits_only_published_counterexample (known finding: lone-surrogate text). Generated-vs-published tables "
+    "(decide): tags_published, load_registry_published, imm_window_published, msg_kinds_published, labels_published, "
+    "handlers_published, handler_routing_published, exc_published, frame_consts_published, consts_complete, "
+    "handler_arity_published, call_sites_fit_published, call_sites_cover_published, doc_sample_published/_dump. "
+    "Recorded live behaviour on fixed probes (decide): recorded_probes_ran, operations_use_published_handlers, "
+    "recorded_requests_conform, recorded_requests_match_model, recorded_box_matches_model, recorded_unbox_matches_model, "
+    "recorded_responses_published, recorded_exceptions_published, recorded_replies_have_published_shape, "
+    "recorded_dispatch_matches_model. Definitional over the hand-written Spec/Code.lean (no tie of their own, see "
+    "trusted_base): box_layout, msg_layout_request/reply/exception, msg_layout_wire, request_wire, reply_wire, "
+    "exception_wire, dispatch_reads_published, unbox_reads_published; gen_eq_published repackages; "
+    "struct_formats_published is a generator guard. `evaluations` counts cases run on the real code; the same cases "
+    "evaluated by the Lean driver are `driver_lines`.")
 
 LIMIT = c04.LIMIT
 
@@ -366,12 +370,13 @@ def check_send_real(data, compress):
         wire, _nw = real_send(data, compress)
     except Exception as ex:  # noqa
         return "Channel.send raised %s" % valtext.err_name(ex)
-    want_flag = 1 if (compress and len(data) > refcodec.COMPRESSION_THRESHOLD) else 0
+    may_compress = compress and len(data) > refcodec.COMPRESSION_THRESHOLD
     if len(wire) < 6:
         return "packet of %d bytes is shorter than header + trailer" % len(wire)
     n, flag = int.from_bytes(wire[:4], "big"), wire[4]
-    if flag != want_flag:
-        return "compression flag %d, published: %d (compress=%s, %d bytes)" % (flag, want_flag, compress, len(data))
+    if flag not in (0, 1) or (flag == 1 and not may_compress):
+        return ("compression flag %d on a packet of %d bytes (compress=%s); published: zlib is used only above %d bytes, and only "
+                "when compression is on" % (flag, len(data), compress, refcodec.COMPRESSION_THRESHOLD))
     if len(wire) != 5 + n + 1:
         return "length field says %d, the packet has %d bytes (published: 4-byte big-endian length, flag, payload, newline)" % (n, len(wire))
     if wire[-1:] != b"\n":
@@ -676,6 +681,13 @@ def same(a, b):
     return valtext.canon(a) == valtext.canon(b)
 
 
+def no_refs(b):
+    """a boxed tree of LABEL_VALUE / LABEL_TUPLE only (by value as a whole or item by item: both are published)"""
+    if b[0] == refcodec.LABEL_VALUE:
+        return True
+    return b[0] == refcodec.LABEL_TUPLE and all(no_refs(x) for x in b[1])
+
+
 def audit_real_frames(stream_bytes, compress, problems, frames):
     """every packet the real side wrote: reference-decode, layout, re-encode, flag rule"""
     try:
@@ -684,9 +696,9 @@ def audit_real_frames(stream_bytes, compress, problems, frames):
         problems.append("real side's byte stream is not a sequence of published packets: %s" % ex)
         return
     for flag, _payload, data in pk:
-        want_flag = 1 if (compress and len(data) > refcodec.COMPRESSION_THRESHOLD) else 0
-        if flag != want_flag:
-            problems.append("packet of %d bytes has flag %d, published %d" % (len(data), flag, want_flag))
+        if flag == 1 and not (compress and len(data) > refcodec.COMPRESSION_THRESHOLD):
+            problems.append("packet of %d bytes is compressed (compress=%s); published: zlib only above %d bytes"
+                            % (len(data), compress, refcodec.COMPRESSION_THRESHOLD))
         try:
             val = refcodec.decode(data, keep_order=True)
             msg = refcodec.parse_message(val)
@@ -995,7 +1007,8 @@ def run_server_conversation(seed, idx):
                             force=r.choice([None, None, True, False]))
     st = make_loop_stream()
     svc = make_service()
-    conn = svc._connect(channel.Channel(st, compress), dict(SERVER_CONFIG))
+    allow_pickle = r.chance(1, 2)
+    conn = svc._connect(channel.Channel(st, compress), dict(SERVER_CONFIG, allow_pickle=allow_pickle))
     consumed = [0]
     problems, ops, frames = [], [], []
     answered = set()
@@ -1048,8 +1061,8 @@ def run_server_conversation(seed, idx):
             if msg[0] != "exception":
                 problems.append("%s: expected exception %s, got %r" % (name, want_exc, msg[:3]))
             elif want_exc == "StopIteration":
-                if msg[2] != R.EXC_STOP_ITERATION:
-                    problems.append("%s: StopIteration did not travel as EXC_STOP_ITERATION: %r" % (name, msg[2]))
+                if not (msg[2] == R.EXC_STOP_ITERATION or (type(msg[2]) is tuple and msg[2][0] == ("builtins", "StopIteration"))):
+                    problems.append("%s: StopIteration travelled neither as EXC_STOP_ITERATION nor as its tuple: %r" % (name, msg[2]))
             elif not (type(msg[2]) is tuple and msg[2][0] == (want_exc[2] if len(want_exc) > 2 else "builtins", want_exc[0])
                       and (want_exc[1] is None or msg[2][1] == want_exc[1])):
                 problems.append("%s: expected %s, got %r" % (name, want_exc, msg[2][:2] if type(msg[2]) is tuple else msg[2]))
@@ -1068,8 +1081,8 @@ def run_server_conversation(seed, idx):
         if msg[0] != "reply":
             problems.append("%s: expected a reply, got %r" % (name, msg[:3]))
             return None
-        if want is not None and not (msg[2][0] == R.LABEL_VALUE and same(msg[2][1], want[0])):
-            problems.append("%s: reply %s, expected (1, %s)" % (name, valtext.canon(msg[2])[:120], valtext.canon(want[0])[:100]))
+        if want is not None and not (no_refs(msg[2]) and same(R.unbox_plain(msg[2]), want[0])):
+            problems.append("%s: reply %s does not mean %s" % (name, valtext.canon(msg[2])[:120], valtext.canon(want[0])[:100]))
         return msg[2]
 
     def args_boxed(items):
@@ -1194,7 +1207,12 @@ def run_server_conversation(seed, idx):
         elif op == "pickle":
             bx = fetch("box")
             if bx is not None:
-                rpc("pickle", "PICKLE", args_boxed([bx, 2]), want_exc=("ValueError", None))
+                if allow_pickle:
+                    pk = value_of(rpc("pickle (allowed)", "PICKLE", args_boxed([bx, 2])))
+                    if type(pk) is not bytes or pk[:2] != b"\x80\x02":
+                        problems.append("pickle: reply is not a protocol-2 pickle byte string: %r" % (pk if pk is None else pk[:12],))
+                else:
+                    rpc("pickle", "PICKLE", args_boxed([bx, 2]), want_exc=("ValueError", None))
         elif op == "inspect":
             cx = fetch("ctx")
             if cx is not None:
@@ -1300,11 +1318,14 @@ def check_all_builtin_exceptions():
                 problems.append("raising %s(): the payload is the StopIteration marker" % name)
         elif type(d) is tuple:
             outcome[name] = "%s.%s" % d[0]
-            if name == "StopIteration":
-                problems.append("raising StopIteration(): did not travel as EXC_STOP_ITERATION")
-            elif d[0] not in (("builtins", getattr(__import__("builtins"), name).__name__),   # EnvironmentError is OSError
-                              ("builtins", "TypeError")):                            # some classes need arguments
-                problems.append("raising %s(): the payload names %r" % (name, d[0]))
+            cls = getattr(__import__("builtins"), name)
+            try:
+                cls()
+                expected = cls.__name__                     # EnvironmentError is OSError
+            except TypeError:
+                expected = "TypeError"                      # the class cannot be built without arguments
+            if d[0] != ("builtins", expected):
+                problems.append("raising %s(): the payload names %r, expected builtins.%s" % (name, d[0], expected))
         else:
             outcome[name] = "string"
     audit_real_frames(bytes(st.out), True, problems, frames)
@@ -1403,12 +1424,13 @@ def correspondence(ctx):
         add(line, "const", line, want, "const:" + line.split()[-1])
 
     # (a) values
-    n_vals = ctx.budget(4000, 30000)
+    n_vals = ctx.budget(3400, 30000)
     n_boundary = len(c04.boundary_values())
     forms_used = {}
     surrogate_cases = []
     for vi, v in enumerate(value_stream(r, n_vals)):
         if c04.depth_of(v) > 200:
+            c.count("value:not-judged:nested-deeper-than-200")
             continue
         t = valtext.to_text(v)
         real = impl_dump(v)
@@ -1626,8 +1648,8 @@ def correspondence(ctx):
         c.error = str(ex)
         return c
     ctx.log("driver done")
-    for (part, case, want, sig), line, got in zip(expect, lines, outs):
-        c.evaluations += 1
+    c.extra["driver_lines"] = len(lines)         # Lean-side evaluations of the same cases (not added to `evaluations`)
+    for k_line, ((part, case, want, sig), line, got) in enumerate(zip(expect, lines, outs)):
         if part == "enc-ext-strict":
             # the published (strict) rule has no encoding for surrogate text, or refuses the value for another reason
             if got.startswith("ok"):
@@ -1639,7 +1661,7 @@ def correspondence(ctx):
             c.signatures.add(sig)
         if got != want:
             disagree("model:" + part, line if len(line) < 1500 else line[:1500] + "..", str(want), got)
-        elif len(c.samples) < 12 and c.evaluations % 701 == 5:
+        elif len(c.samples) < 12 and k_line % 701 == 5:
             c.samples.append(dict(part=part, op=line[:160], outcome=got[:160]))
     c.exhaustive = False
     return c
